@@ -17,9 +17,10 @@ type chunking struct {
 }
 
 // chunkings of a stream of n bytes whose frames end at ends[]:
-//   - n <= 40: EVERY split of the stream into at most 3 reads
+//   - n <= 24 (thorough: 40): EVERY split of the stream into at most 3 reads
 //   - longer: one read; 1-byte reads (streams <= 70000 bytes, thorough: all); a cut at every frame end -1/0/+1;
-//     cuts inside the first length prefix; bufio-sized reads 4095/4096/4097; a Fibonacci cycle of small reads
+//     4096-byte reads; a Fibonacci cycle of small reads; and (quick: only streams <= 256 KiB) cuts inside the
+//     first length prefix, four 1-byte reads first, 4095/4097-byte reads
 func chunkings(n int, ends []int, thorough bool) (out []chunking) {
 	add := func(name string, sizes, cycle []int) {
 		out = append(out, chunking{name, sizes, cycle})
@@ -28,7 +29,11 @@ func chunkings(n int, ends []int, thorough bool) (out []chunking) {
 	if n == 0 {
 		return
 	}
-	if n <= 40 {
+	all := 24
+	if thorough {
+		all = 40
+	}
+	if n <= all {
 		for i := 1; i < n; i++ {
 			add(fmt.Sprintf("split2@%d", i), []int{i}, nil)
 			for j := i + 1; j < n; j++ {
@@ -53,15 +58,27 @@ func chunkings(n int, ends []int, thorough bool) (out []chunking) {
 		cut("frame-end", e)
 		cut("frame-end+1", e+1)
 	}
+	add("cycle4096", nil, []int{4096})
+	add("fib", nil, []int{1, 2, 3, 5, 8, 13, 21, 34, 55, 89, 144})
+	if n > 256<<10 && !thorough {
+		return // quick tier: MiB-sized streams get the six chunkings above
+	}
 	for _, k := range []int{1, 2, 3, 4} {
 		cut("prefix-cut", k)
 	}
 	add("first-bytes-single", []int{1, 1, 1, 1}, nil)
-	add("cycle4096", nil, []int{4096})
 	add("cycle4095", nil, []int{4095})
 	add("cycle4097", nil, []int{4097})
-	add("fib", nil, []int{1, 2, 3, 5, 8, 13, 21, 34, 55, 89, 144})
 	return
+}
+
+func hasZero(seq []int) bool {
+	for _, v := range seq {
+		if v == 0 {
+			return true
+		}
+	}
+	return false
 }
 
 func dedup(in []int) []int {
@@ -120,10 +137,13 @@ func enumSmall(r *vrt.R, emit func(*caseSpec) bool) bool {
 		rec(nil)
 		for _, dir := range dirs {
 			for _, lvl := range levels(r, t) {
-				for _, sec := range []string{"", secret1, secret2} {
+				for _, mode := range []struct{ sec, via string }{{"", ""}, {secret1, ""}, {secret2, ""}, {"", "packet"}, {secret1, "packet"}} {
 					for _, seq := range seqs {
+						if mode.via == "packet" && hasZero(seq) {
+							continue // a packet always has its id byte
+						}
 						for _, kind := range []string{"rep", "lcg"} {
-							cs := &caseSpec{Dir: dir, Threshold: t, Level: lvl, Secret: sec}
+							cs := &caseSpec{Dir: dir, Threshold: t, Level: lvl, Secret: mode.sec, Via: mode.via}
 							for _, s := range seq {
 								cs.Steps = append(cs.Steps, step{Size: s, Content: kind})
 							}
@@ -162,7 +182,8 @@ func enumLarge(r *vrt.R, emit func(*caseSpec) bool) bool {
 					for _, sec := range secrets {
 						n++
 						dir := dirs[n%2]
-						cs := &caseSpec{Dir: dir, Threshold: t, Level: lvl, Secret: sec, Steps: []step{{Size: size, Content: kind}, {Size: 3, Content: "rep"}}}
+						via := []string{"", "packet"}[(n/2)%2] // large cases alternate between the two writer entry points
+						cs := &caseSpec{Dir: dir, Threshold: t, Level: lvl, Secret: sec, Via: via, Steps: []step{{Size: size, Content: kind}, {Size: 3, Content: "rep"}}}
 						if !emit(cs) {
 							return false
 						}
@@ -186,65 +207,59 @@ func enumLarge(r *vrt.R, emit func(*caseSpec) bool) bool {
 }
 
 // settings switched in mid-stream, as the login sequence does (SetCompression, then encryption or the
-// other way round): the switch happens on both sides after the same frame
+// other way round): the switch happens on both sides after the same frame. Both flush policies: after
+// every payload, and once at the end (switching while earlier frames still sit in the write buffer).
 func enumSwitch(r *vrt.R, emit func(*caseSpec) bool) bool {
 	sizes := []int{1, 64, 300}
 	thr := []int{-1, 0, 64, 256}
-	var seqs [][]int
-	for _, a := range sizes {
-		for _, b := range sizes {
-			for _, c := range sizes {
-				seqs = append(seqs, []int{a, b, c})
-			}
-		}
-	}
 	kinds := []string{"rep"}
 	if r.Thorough() {
 		kinds = []string{"rep", "lcg"}
 	}
-	for _, seq := range seqs {
-		for _, kind := range kinds {
-			for k := 1; k <= 2; k++ {
-				for _, a := range thr {
-					// threshold a -> b before payload k
-					for _, b := range thr {
-						if a == b {
-							continue
-						}
-						for _, sec := range []string{"", secret1} {
-							cs := &caseSpec{Dir: "serverbound", Threshold: a, Level: -1, Secret: sec}
-							for i, s := range seq {
-								st := step{Size: s, Content: kind}
-								if i == k {
-									bb := b
-									st.SetThreshold = &bb
-								}
-								cs.Steps = append(cs.Steps, st)
-							}
-							if !emit(cs) {
-								return false
-							}
-						}
-					}
-					// encryption enabled before payload k (threshold a throughout), and both switches at once
-					for _, both := range []bool{false, true} {
-						cs := &caseSpec{Dir: "clientbound", Threshold: a, Level: -1}
-						for i, s := range seq {
-							st := step{Size: s, Content: kind}
-							if i == k {
-								st.Encrypt = secret2
-								if both {
-									bb := 64
-									if a == 64 {
-										bb = 0
+	mk := func(dir string, seq []int, kind string, k, a int, sec string, flushAtEnd bool, setThr *int, encrypt string) *caseSpec {
+		cs := &caseSpec{Dir: dir, Threshold: a, Level: -1, Secret: sec, FlushAtEnd: flushAtEnd}
+		for i, s := range seq {
+			st := step{Size: s, Content: kind}
+			if i == k {
+				st.SetThreshold, st.Encrypt = setThr, encrypt
+			}
+			cs.Steps = append(cs.Steps, st)
+		}
+		return cs
+	}
+	for _, s0 := range sizes {
+		for _, s1 := range sizes {
+			for _, s2 := range sizes {
+				seq := []int{s0, s1, s2}
+				for _, kind := range kinds {
+					for k := 1; k <= 2; k++ {
+						for _, a := range thr {
+							for _, fl := range []bool{false, true} {
+								// threshold a -> b before payload k, with and without encryption from the start
+								for _, b := range thr {
+									if a == b {
+										continue
 									}
-									st.SetThreshold = &bb
+									for _, sec := range []string{"", secret1} {
+										bb := b
+										if !emit(mk("serverbound", seq, kind, k, a, sec, fl, &bb, "")) {
+											return false
+										}
+									}
+								}
+								// encryption enabled before payload k (threshold a throughout) ...
+								if !emit(mk("clientbound", seq, kind, k, a, "", fl, nil, secret2)) {
+									return false
+								}
+								// ... and together with a threshold switch
+								bb := 64
+								if a == 64 {
+									bb = 0
+								}
+								if !emit(mk("clientbound", seq, kind, k, a, "", fl, &bb, secret2)) {
+									return false
 								}
 							}
-							cs.Steps = append(cs.Steps, st)
-						}
-						if !emit(cs) {
-							return false
 						}
 					}
 				}
